@@ -2,6 +2,48 @@
 #pragma once
 #include "fsh.hpp"
 
+namespace fastscapelib
+{
+    namespace testing
+    {
+        // The library declares this class a friend of basin_graph (for its own orient_edges test).
+        // The harness uses the same door to run the two spanning-tree algorithms on a SYNTHETIC basin
+        // graph (`mstraw`): dense graphs, hubs of degree far above m_max_low_degree and tied weights
+        // that small grids never produce.  Nothing in /repo is changed for this.
+        class basin_graph_orient_edges_Test
+        {
+        public:
+            template <class BG>
+            static void load(BG& bg, std::size_t nb, const std::vector<std::array<std::size_t, 2>>& links,
+                             const std::vector<double>& w)
+            {
+                using size_type = typename BG::size_type;
+                bg.m_outlets.assign(nb, size_type(0));
+                bg.m_edges.clear();
+                for (std::size_t k = 0; k < links.size(); ++k)
+                {
+                    auto e = BG::edge::make_edge(static_cast<size_type>(links[k][0]), static_cast<size_type>(links[k][1]));
+                    e.pass[0] = 0;
+                    e.pass[1] = 0;
+                    e.pass_elevation = w[k];
+                    e.pass_length = 1.0;
+                    bg.m_edges.push_back(e);
+                }
+            }
+            template <class BG>
+            static void kruskal(BG& bg)
+            {
+                bg.compute_tree_kruskal();
+            }
+            template <class BG>
+            static void boruvka(BG& bg)
+            {
+                bg.compute_tree_boruvka();
+            }
+        };
+    }
+}
+
 namespace fsh
 {
     template <class V>
@@ -582,6 +624,57 @@ namespace fsh
             }
         }
 
+        // Kruskal and Boruvka on a synthetic basin graph: `mstraw nb ne (l0 l1 w)*`.  The basin-graph
+        // object is kept from one call to the next (scratch arrays of Boruvka must not leak).
+        void call_mstraw(Line& l)
+        {
+            using T = fs::testing::basin_graph_orient_edges_Test;
+            std::size_t nb = l.nsz(), ne = l.nsz();
+            std::vector<std::array<std::size_t, 2>> links(ne);
+            std::vector<double> w(ne);
+            for (std::size_t k = 0; k < ne; ++k)
+            {
+                links[k][0] = l.nsz();
+                links[k][1] = l.nsz();
+                w[k] = l.ndbl();
+            }
+            auto ip = graph->impl_ptr();
+            // the number of basins is read from the flow graph: the scenario provides a graph with
+            // exactly nb outlets (a flat profile of nb nodes)
+            ip->compute_basins();
+            if (ip->outlets().size() != nb)
+            {
+                os << "O mstraw bad_nb " << ip->outlets().size() << "\n";
+                return;
+            }
+            auto& slot = bgraphs["raw"];
+            if (!slot)
+                slot = std::make_unique<bgraph_type>(*ip, fs::mst_method::boruvka);
+            bgraph_type& bg = *slot;
+            // the order std::sort gives the edge indices (ties are implementation defined)
+            {
+                std::vector<size_type> idx(ne);
+                std::iota(idx.begin(), idx.end(), 0);
+                std::sort(idx.begin(), idx.end(), [&w](const size_type& i0, const size_type& i1) { return w[i0] < w[i1]; });
+                os << "I rawperm";
+                put_sizes(os, idx);
+                os << "\n";
+            }
+            T::load(bg, nb, links, w);
+            T::kruskal(bg);
+            os << "O raw_k";
+            put_sizes(os, bg.tree());
+            os << "\n";
+            T::boruvka(bg);
+            os << "O raw_b";
+            put_sizes(os, bg.tree());
+            os << "\n";
+            T::boruvka(bg);
+            os << "O raw_b2";
+            put_sizes(os, bg.tree());
+            os << "\n";
+        }
+
         void call_spl(Line& l)
         {
             const size_type n = grid.size();
@@ -739,7 +832,7 @@ namespace fsh
         bool dispatch(const std::string& cmd, Line& l)
         {
             static const char* flow_cmds[] = { "set_mask", "set_base", "set_param", "update", "acc",
-                                               "basins", "pits", "bgraph", "spl", "kernel", "snapcall", "adi" };
+                                               "basins", "pits", "bgraph", "mstraw", "spl", "kernel", "snapcall", "adi" };
             if (cmd != "graph" && !graph)
             {
                 for (auto fc : flow_cmds)
@@ -767,6 +860,8 @@ namespace fsh
                 call_pits(*graph);
             else if (cmd == "bgraph")
                 call_bgraph(l);
+            else if (cmd == "mstraw")
+                call_mstraw(l);
             else if (cmd == "spl")
                 call_spl(l);
             else if (cmd == "kernel")
